@@ -97,7 +97,7 @@ def chain_check(ops, g, snapdir):
     return None
 
 
-def run_history(ops, path, prop, snap=False, model=True):
+def run_history(ops, path, prop, snap=False, model=True, oracle_timeout=600):
     """returns dict: text, g, m, diff, spec (first oracle deviation relevant to prop or None), other"""
     env = None
     snapdir = None
@@ -109,7 +109,7 @@ def run_history(ops, path, prop, snap=False, model=True):
     text = render(ops)
     g, grc, gerr = run_harness(['store', path], text, env=env)
     if model:
-        m, mrc, merr = run_oracle(render(with_observed_growth(ops, g)))
+        m, mrc, merr = run_oracle(render(with_observed_growth(ops, g)), timeout=oracle_timeout)
         g = strip_growth_lines(g)
         d = first_diff(g, m)
     else:
@@ -156,10 +156,12 @@ def store_property(prop, tier, seed, histories, level_note, replay=None, snap=Fa
 
     def handle(ops, origin):
         nonlocal corr, nviol
-        use_model = tier == 'thorough' or not is_big(ops)
+        # 2 MB payloads: the extracted model needs minutes per large operation; such histories are judged by the
+        # specification oracle alone, except the minimal one of the thorough tier (one large payload: write, read, reopen)
+        use_model = not is_big(ops) or (tier == 'thorough' and len(ops) <= 6)
         if not use_model:
             stats['spec_only'] = stats.get('spec_only', 0) + 1
-        r = run_history(ops, path, prop, snap=snap, model=use_model)
+        r = run_history(ops, path, prop, snap=snap, model=use_model, oracle_timeout=3000 if is_big(ops) else 600)
         stats['histories'] += 1
         stats['ops'] += len(ops)
         stats['distinct'].add(hash(r['text']))
@@ -259,6 +261,8 @@ def hist_C01(tier):
     def gen(rng, path):
         for nb in BOUNDARY_SIZES:
             yield gen_boundary_history(rng, path, nb)
+        if tier == 'thorough':
+            yield gen_boundary_minimal(rng, path, BOUNDARY_SIZES[1])
         for h in range(n):
             if h % 3 == 2:
                 yield gen_sf_history(rng, rng.randint(10, 70), big=(h % 12 == 2))
@@ -273,6 +277,8 @@ def hist_C02(tier):
     def gen(rng, path):
         for nb in BOUNDARY_SIZES:
             yield gen_boundary_history(rng, path, nb)
+        if tier == 'thorough':
+            yield gen_boundary_minimal(rng, path, BOUNDARY_SIZES[1])
         for h in range(n):
             if h % 4 == 3:
                 yield gen_sf_history(rng, rng.randint(10, 50))
